@@ -11,6 +11,18 @@ TESTS[C09]="tangelo/linq/tests tangelo/linq/helpers/circuits/tests tangelo/algor
 TESTS[C11]="tangelo/linq/tests tangelo/toolboxes/unitary_generator tangelo/toolboxes/circuits/tests/test_lcu.py"
 TESTS[C16]="tangelo/toolboxes/operators/tests tangelo/toolboxes/qubit_mappings/tests tangelo/toolboxes/ansatz_generator/tests"
 TESTS[C18]="tangelo/toolboxes/post_processing/tests tangelo/toolboxes/measurements/tests"
+TESTS[C03]="tangelo/toolboxes/qubit_mappings/tests tangelo/toolboxes/operators/tests"
+TESTS[C05]="tangelo/toolboxes/qubit_mappings/tests tangelo/toolboxes/ansatz_generator/tests"
+TESTS[C10]="tangelo/linq/tests tangelo/algorithms/projective/tests/test_iqpe.py tangelo/toolboxes/post_processing/tests/test_post_selection.py"
+TESTS[C12]="tangelo/toolboxes/ansatz_generator/tests tangelo/algorithms/variational/tests/test_vqe_solver.py"
+TESTS[C14]="tangelo/toolboxes/operators/tests tangelo/algorithms/variational/tests/test_iqcc_solver.py tangelo/algorithms/variational/tests/test_iqcc_ilc_solver.py"
+TESTS[C15]="tangelo/problem_decomposition/tests/dmet tangelo/problem_decomposition/tests/oniom"
+TESTS[C17]="tangelo/linq/tests"
+TESTS[C19]="tangelo/linq/tests tangelo/algorithms/projective/tests/test_qite.py"
+TESTS[C20]="tangelo/linq/helpers/circuits/tests tangelo/linq/tests tangelo/algorithms/projective/tests/test_iqpe.py"
+TESTS[C04]="tangelo/toolboxes/molecular_computation/tests"
+TESTS[C08]="tangelo/algorithms/variational/tests/test_vqe_solver.py tangelo/algorithms/variational/tests/test_sa_vqe_solver.py"
+TESTS[C13]="tangelo/toolboxes/molecular_computation/tests tangelo/algorithms/classical/tests"
 for d in /verif/seeded/${1:-*}; do
   id=$(basename $d); prop=${id%%-*}
   [ -f $d/tests_confirmed.txt ] && continue
@@ -18,6 +30,18 @@ for d in /verif/seeded/${1:-*}; do
   t="${TESTS[$prop]:-tangelo/linq/tests}"
   PYTHONPATH=$WT timeout 3000 /venv/bin/python -W ignore -m pytest -q -p no:cacheprovider $t 2>&1 | tail -15 > /tmp/seedtest_$id.txt
   { echo "cd <worktree> && PYTHONPATH=<worktree> /venv/bin/python -m pytest -q -p no:cacheprovider $t"; grep -E "passed|failed|FAILED" /tmp/seedtest_$id.txt; } > $d/tests_confirmed.txt
-  echo "$id: $(tail -1 $d/tests_confirmed.txt)"
+  python3 - $d/tests_confirmed.txt <<'PY' >> $d/tests_confirmed.txt
+import json, re, sys
+sp = set(json.load(open('/root/.vp/BASELINE.json'))['stable_pass'])
+bad = []
+for l in open(sys.argv[1]):
+    m = re.match(r"FAILED (\S+?)\.py::(\S+)", l)
+    if m:
+        tid = m.group(1).replace('/', '.') + '.' + m.group(2)
+        if tid in sp:
+            bad.append(tid)
+print("failing tests that belong to the baseline's stable_pass set:", bad or "none")
+PY
+  echo "$id: $(tail -2 $d/tests_confirmed.txt | tr '\n' ' ')"
 done
 cd /repo && git worktree remove --force $WT
